@@ -7,6 +7,12 @@ from . import sexp as SX
 PROPS = {}
 
 
+TABLES = {"C01": ("keywords",), "C05": ("keywords",), "C06": ("keywords",), "C13": ("keywords",),
+          "C18": ("keywords", "messages"), "C14": ("format",), "C02": ("format", "unsupported", "units"),
+          "C12": ("unsupported",), "C19": ("units",), "C07": ("units",), "C03": ("keywords", "format"),
+          "C17": ("keywords", "format", "units", "unsupported")}
+
+
 class Prop:
     id = None
     theorems = []          # names in Properties/<id>.v
@@ -67,6 +73,7 @@ def register(cls):
     ths += ["%s.%s" % (m, n) for (m, n) in extra if n in pinned_theorems(m)]
     obj.theorems = ths
     obj.modules = sorted(set(mods + [m for m, _ in extra]))
+    obj.tables = TABLES.get(cls.id, ())
     PROPS[cls.id] = obj
     return cls
 
@@ -361,7 +368,7 @@ def mutate(rng, s):
 ARG_KEYWORDS = (gen.TIME_KW + gen.U32_KW + gen.U64_KW + gen.STR_TESTS_OK + gen.STR_TESTS_UNSUP
                 + ["-perm", "-size", "-type", "-xattr-match", "-fls", "-fprint", "-fprint0", "-fprintf", "-printf",
                    "-maxdepth", "-mindepth", "-threads"])
-SHORT_ALPHABET = list("0179+-/kxu=r,'\"\\%{f ")
+SHORT_ALPHABET = list("0179+-/kxu=r,'\"\\%{f XU")
 
 
 @register
@@ -421,6 +428,9 @@ class C03(Prop):
             out.append((PC("-printf 'a\\%03ob\\n'" % v), "octal-escape"))
             out.append((PC("-fprintf f '\\%03o'" % v), "octal-escape"))
         out += [(PC(s), "scale") for s in gen.scale_cases(rng)]
+        # every member / corrupted member of every argument language (the C05 corpus) is a totality input too
+        c5 = PROPS["C05"].cases(tier, rng) if "C05" in PROPS else []
+        out += [("PC " + c[2:] + " " + hx("/d") if c.startswith("P ") else c, "C05-corpus") for c, _ in c5]
         out += [(PC(s), "seed-corpus") for s in ["", " ", "nope", "-perm 17777", "-printf '\\1234567'", "-maxdepth 3",
                                                  "-size 18014398509481984k", "-printf '%'", "-printf '\\", "'", "\"", "-name 'x"]]
         return out
@@ -607,6 +617,11 @@ class C05(Prop):
                         k = rng.randrange(len(m[1]) + 1)
                         out.append((P(m[0] + " " + m[1][:k] + suf + m[1][k:] + (" " + " ".join(m[2:]) if len(m) > 2 else "")), "corrupt-inside"))
                 if len(m) > 1:
+                    # one letter of the argument in the other case (X for x, K for k, D for d ...)
+                    letters = [i for i, ch in enumerate(m[1]) if ch.isalpha() and ch.isascii()]
+                    for i in rng.sample(letters, min(2, len(letters))):
+                        flipped = m[1][:i] + m[1][i].swapcase() + m[1][i + 1:]
+                        out.append((PC(" ".join([m[0], flipped] + m[2:])), "case-flipped-argument"))
                     out.append((P(" ".join(m[:-1])), "missing-argument"))
                     out.append((P(" ".join(m[:-1]) + " )"), "missing-argument"))
         for lead in ["-depth", "-threads 4", "-depth -threads 2"]:
@@ -851,6 +866,18 @@ def unesc_case(case):
     return "" if f == "-" else "".join(chr(int(x, 16)) for x in f.split("."))
 
 
+
+def formats_ending_in_every_escape():
+    """formats whose last element is each documented escape and each octal escape \\000-\\017, \\177, \\377, \\400"""
+    ends = ["\\a", "\\b", "\\c", "\\f", "\\n", "\\r", "\\t", "\\v", "\\0", "\\\\", "\\"] \
+        + ["\\%03o" % v for v in list(range(0, 16)) + [0o177, 0o377, 0o400, 0o777]] + ["%%", "x", "\\n\\n", "\\n "]
+    out = []
+    for e in ends:
+        out.append("-printf '%%p%s'" % e)
+        out.append("-printf '%%p\\n%s'" % e)
+        out.append("-print -printf '%%s %%p%s'" % e)
+    return out
+
 # ------------------------------------------------------------------------------------------- C09
 
 C09_LEAVES = ["T True", "T False", "T Name S78", "A Print", "A Quit", "A FilePrint S66"]
@@ -975,6 +1002,12 @@ class C10(Prop):
             names = " -o ".join("-name n%d" % i for i in range(nm))
             out.append((PC("-fprint early -fprint0 early ( %s ) -fprint late -fprint0 late -print0" % names), "late-printer"))
         out += [(PC(s_), "scale") for s_ in gen.scale_cases(rng)]
+        out += [(PC(f), "format-ending") for f in formats_ending_in_every_escape()]
+        for a in OUT_ACTIONS:
+            for n in (0, 1, 2):
+                out.append((PC("-threads %d %s" % (n, a)), "threads-x-action"))
+                out.append((PC("%s -threads %d" % (a, n)), "threads-x-action"))
+            out.append((PC("-depth " + a), "threads-x-action"))
         return out
 
     def nontrivial(self, case, line):
@@ -1111,6 +1144,10 @@ class C13(Prop):
                 starts = [i + (1 if i >= pos else 0) for i in starts]
             s = " ".join(opts[:lead] + s_words)
             out.append((PC(gen.join_words(rng, s.split(" "), fancy=rng.random() < 0.2)), "options-%d" % k))
+        for lead in ["-depth", "-threads 3", "-threads 3 -depth", "-depth -and -threads 2"]:
+            for andw in ["", "-a", "-and"]:
+                for operand in ["-name x", "! -name x", "( -name x -o -type f )", "! ( -name x )", "-print", ", -true", "-o -true", ")", "-depth", "! -empty -print0"]:
+                    out.append((PC(" ".join(w for w in [lead, andw, operand] if w)), "leading-and-operand"))
         for s in ["-depth", "-threads 3", "-depth -threads 2 -threads 7", "-true -depth", "( -depth )", "! -threads 9",
                   "-threads 1 -true -threads 2 -o -threads 3", "-maxdepth 3", "-true -mindepth 1", "-depth -depth",
                   "-threads 4294967295", "-threads 4294967296"]:
@@ -1275,6 +1312,7 @@ class C16(Prop):
             ws = gen.expr_words(rng, 3, hostile=0.0)
             out.append((PC(" ".join(ws)), "random"))
         out.append((PC("-true"), "default-print"))
+        out += [(PC(f), "format-ending") for f in formats_ending_in_every_escape()]
         return out
 
     def nontrivial(self, case, line):
@@ -1316,13 +1354,9 @@ class C17(Prop):
 
     def cases(self, tier, rng):
         out = []
+        # the C03 corpus already contains the C05 corpus (members and corrupted members)
         c3 = PROPS["C03"].cases(tier, rng)
-        c5 = PROPS["C05"].cases(tier, rng)
-        if tier == "quick":
-            c3 = rng.sample(c3, min(len(c3), 20000))
-            c5 = rng.sample(c5, min(len(c5), 15000))
-        out += [(c, "C03-corpus") for c, _ in c3]
-        out += [("PC " + c[2:] + " " + hx("/d"), "C05-corpus") for c, _ in c5]
+        out += [(c, "C03+C05-corpus") for c, _ in c3]
         for u in ["Byte", "Word", "Block", "KiloByte", "MegaByte", "GigaByte", "TeraByte"]:
             out.append(("TC 0 - 2f T Size Gt %s 18446744073709551615" % u, "size-overflow"))
         for nm in [120, 126, 127, 128, 200]:
@@ -1452,7 +1486,8 @@ class C19(Prop):
 
 # ------------------------------------------------------------------------------------------- C20
 
-HOSTILE_PATHS = ["lipe", "find", "lambda", "#t", "0", "mdt0", "let*", "/mnt/éé\"x", "/日本語\\mdt0", "été \"2024\"/mdt", "💾\"", "/mnt/lustré\\mdt0",
+HOSTILE_PATHS = ["a \nb", "a\t\nb", "a\r\nb", " lead", "trail ", "two  spaces", "\n", "tab\t",
+                 "lipe", "find", "lambda", "#t", "0", "mdt0", "let*", "/mnt/éé\"x", "/日本語\\mdt0", "été \"2024\"/mdt", "💾\"", "/mnt/lustré\\mdt0",
                  "/dev/mdt0", "/", "", "a b", "x\"y", "back\\slash", "q\\", "\"", "é☃", "~a~%", "(;#|", "new\nline", "t\tab", "z" * 10000,
                  "\") (system \"id\") (\""]
 
